@@ -55,7 +55,9 @@ C19Viol(tr, k) ==
 BatchViol(tr) ==
     (IF tr.netB = tr.netA THEN {} ELSE {"NetworkFrozen"})
     \cup (IF tr.simB = tr.simA THEN {} ELSE {"SimParamsFrozen"})
-    \cup (IF ~tr.j19 \/ OneEntryPerRequest([k \in 1..Len(tr.inputs) |-> tr.inputs[k].id],
+    \* every request of the batch has exactly one result (C19 states it for the report; C16 needs it too: a request
+    \* whose result is missing or paired with another request's is not "the same as computed alone")
+    \cup (IF ~(tr.j19 \/ tr.j16) \/ OneEntryPerRequest([k \in 1..Len(tr.inputs) |-> tr.inputs[k].id],
                                             [k \in 1..Len(tr.ent) |-> tr.ent[k].e.ids])
           THEN {} ELSE {"OneEntryPerRequest"})
     \cup (IF ~tr.j19 \/ tr.nrows = Len(tr.ent) THEN {} ELSE {"CsvOneRowPerEntry"})
